@@ -200,7 +200,11 @@ fn would_block(g: &Inner, tid: usize) -> bool {
       }
     }
     if *id == "op.start" && *arg == 1 {
-      return g.held.iter().any(|((_, s), h)| *s == usize::MAX && *h != tid);
+      if let Some(o) = g.objs.get(obj) {
+        if let Some(h) = g.held.get(&(*o, usize::MAX)) {
+          return *h != tid;
+        }
+      }
     }
   }
   false
@@ -241,7 +245,10 @@ pub fn run_program(pid: u64, prog: &Value) -> Vec<Value> {
       TID.with(|t| t.set(Some(tid)));
       let mut m = Machine::with_shared(shared);
       for op in ops {
-        on_point("op.start", 0, usize::from(op["op"].as_str() == Some("clone")));
+        // a clone has no point of its own: the object it is about to lock
+        // travels with op.start
+        let target = m.clone_target(&op);
+        on_point("op.start", target, usize::from(target != 0));
         let rec = m.step(pid, &op);
         log_ret(tid, rec);
       }
@@ -291,7 +298,7 @@ pub fn run_program(pid: u64, prog: &Value) -> Vec<Value> {
       .collect();
     if parked.is_empty() {
       // only blocked threads are left: give them time, then call it a deadlock
-      if last_progress.elapsed() > Duration::from_secs(5) {
+      if last_progress.elapsed() > Duration::from_secs(20) {
         outcome = "deadlock";
         break;
       }
@@ -311,11 +318,17 @@ pub fn run_program(pid: u64, prog: &Value) -> Vec<Value> {
       let t = schedule[next];
       next += 1;
       if !parked.contains(&t) {
-        g.log.push(json!({"op": "sched_note", "note": "scheduled thread not parked", "t": t, "at": next - 1}));
-        outcome = "diverged";
+        if !probe {
+          g.log.push(json!({"op": "sched_note", "note": "scheduled thread not parked", "t": t, "at": next - 1}));
+          outcome = "diverged";
+        }
         // fall back to any parked thread so that the program completes
+        // (a probe program's schedule is only a prefix to steer by)
         parked[0]
       } else {
+        if probe && would_block(&g, t) {
+          probed = Some(t);
+        }
         t
       }
     } else {
@@ -347,7 +360,7 @@ pub fn run_program(pid: u64, prog: &Value) -> Vec<Value> {
     }
     recs.push(ev);
   }
-  recs.push(json!({"op": "conc_end", "pid": pid, "oc": "ok", "outcome": outcome,
+  recs.push(json!({"op": "conc_end", "pid": pid, "oc": "ok", "outcome": outcome, "probe": probe,
                    "scheduled": next, "schedule_len": schedule.len(), "extra": extra}));
   if deadlocked {
     // threads are stuck inside the crate: leave them and let the parent see it
